@@ -4,6 +4,7 @@ package main
 
 import (
 	"bytes"
+
 	"context"
 	"fmt"
 	"os"
@@ -26,10 +27,10 @@ type SolveResult struct {
 }
 
 var streqDecl = []string{
-	"(declare-fun streq (Str Str) Bool)",
+	// Go string equality is content equality; Str values are pure contents (no nil flag), so it is SMT equality
+	"(define-fun streq ((a Str) (b Str)) Bool (= a b))",
 	"(declare-fun sdiff (Str Str) Int)",
-	"(assert (forall ((a Str) (b Str)) (! (= (streq a b) (= a b)) :pattern ((streq a b)))))",
-	"(assert (forall ((a Str) (b Str)) (! (=> (not (streq a b)) (or (not (= (len_Str a) (len_Str b))) (and (<= 0 (sdiff a b)) (< (sdiff a b) (len_Str a)) (not (= (at_Str a (sdiff a b)) (at_Str b (sdiff a b))))))) :pattern ((streq a b)))))",
+	"(assert (forall ((a Str) (b Str)) (! (=> (not (= a b)) (or (not (= (len_Str a) (len_Str b))) (and (<= 0 (sdiff a b)) (< (sdiff a b) (len_Str a)) (not (= (at_Str a (sdiff a b)) (at_Str b (sdiff a b))))))) :pattern ((sdiff a b)))))",
 }
 
 var sfRe = regexp.MustCompile(`sf_[A-Za-z0-9_]+`)
@@ -72,7 +73,7 @@ func (ft *FT) axiomTerms(upTo *Axiom) []axTerm {
 // BuildQuery assembles the SMT-LIB text for one obligation.
 func (ft *FT) BuildQuery(o *Obl, axs []axTerm) string {
 	var body bytes.Buffer
-	for _, f := range ft.facts[:o.NFacts] {
+	for _, f := range ft.sliceFacts(o) {
 		body.WriteString("(assert " + f + ")\n")
 	}
 	for _, h := range o.Hints {
@@ -100,6 +101,9 @@ func (ft *FT) BuildQuery(o *Obl, axs []axTerm) string {
 				if live[s] {
 					inc = true
 				}
+			}
+			if inc && (a.ax.Lemma || strings.HasPrefix(a.ax.Name, "def_")) && !ft.visible(a.ax) {
+				inc = false
 			}
 			if inc {
 				included[i] = true
@@ -146,8 +150,17 @@ type solverSpec struct {
 }
 
 var solvers = []solverSpec{
-	{"z3-4.8.12", func(f string, t int) []string { return []string{"/usr/bin/z3", "-smt2", fmt.Sprintf("-T:%d", t), f} }},
+	{"z3-5.1.0/noauto", func(f string, t int) []string {
+		return []string{"z3-new", "-smt2", "smt.auto_config=false", fmt.Sprintf("-T:%d", t), f}
+	}},
 	{"z3-5.1.0", func(f string, t int) []string { return []string{"z3-new", "-smt2", fmt.Sprintf("-T:%d", t), f} }},
+	{"z3-5.1.0/simplex", func(f string, t int) []string {
+		return []string{"z3-new", "-smt2", "smt.arith.solver=2", fmt.Sprintf("-T:%d", t), f}
+	}},
+	{"z3-4.8.12", func(f string, t int) []string { return []string{"/usr/bin/z3", "-smt2", fmt.Sprintf("-T:%d", t), f} }},
+	{"z3-4.8.12/noauto", func(f string, t int) []string {
+		return []string{"/usr/bin/z3", "-smt2", "smt.auto_config=false", fmt.Sprintf("-T:%d", t), f}
+	}},
 	{"cvc5-1.0", func(f string, t int) []string {
 		return []string{"cvc5", "--incremental", fmt.Sprintf("--tlimit=%d", t*1000), f}
 	}},
@@ -185,7 +198,7 @@ func Solve(query string, dir string, name string, timeoutS int, wantModel bool) 
 		x := <-ch
 		got++
 		first := strings.TrimSpace(strings.SplitN(strings.TrimSpace(x.out), "\n", 2)[0])
-		res.All[x.solver] = fmt.Sprintf("%s (%.2fs)", first, x.secs)
+		res.All[x.solver] = fmt.Sprintf("%s (%.2fs)", trunc(first, 120), x.secs)
 		if first == "unsat" {
 			res.Status, res.Solver, res.Secs, res.Output = "unsat", x.solver, x.secs, x.out
 			cancel()
@@ -224,4 +237,114 @@ func hashStr(s string) uint32 {
 		h *= 16777619
 	}
 	return h
+}
+
+// visible: lemmas and definitional axioms are used only by proofs in the same contract file, or on request (uses).
+func (ft *FT) visible(ax *Axiom) bool {
+	file := ""
+	var uses []string
+	if ft.lemma != nil {
+		file = ft.lemma.File
+	} else if ft.c != nil {
+		file = ft.c.File
+		uses = ft.c.Uses
+	}
+	if ax.File == file {
+		return true
+	}
+	for _, u := range uses {
+		if u == ax.Name || "def_"+u == ax.Name {
+			return true
+		}
+	}
+	return false
+}
+
+var symRe = regexp.MustCompile(`\|[^|]+\|`)
+
+type factInfo struct {
+	def  string   // defined constant for facts of the form (= |c| rhs)
+	syms []string // all local symbols
+	body []string // symbols other than control-flow predicates
+}
+
+func isCtl(sym string) bool {
+	return strings.HasPrefix(sym, "|reach_") || strings.HasPrefix(sym, "|e_") || strings.HasPrefix(sym, "|ret!")
+}
+
+func (ft *FT) factInfos() []factInfo {
+	for len(ft.finfo) < len(ft.facts) {
+		f := ft.facts[len(ft.finfo)]
+		var fi factInfo
+		fi.syms = symRe.FindAllString(f, -1)
+		if strings.HasPrefix(f, "(= |") {
+			end := strings.Index(f[3:], "| ")
+			if end > 0 {
+				fi.def = f[3 : 3+end+1]
+			}
+		}
+		for _, sy := range fi.syms {
+			if !isCtl(sy) {
+				fi.body = append(fi.body, sy)
+			}
+		}
+		ft.finfo = append(ft.finfo, fi)
+	}
+	return ft.finfo
+}
+
+// sliceFacts keeps the facts in the cone of influence of the obligation (dropping assumptions is always sound).
+func (ft *FT) sliceFacts(o *Obl) []string {
+	if os.Getenv("PVC_NOSLICE") != "" {
+		return ft.facts[:o.NFacts]
+	}
+	infos := ft.factInfos()
+	live := map[string]bool{}
+	seed := o.Guard + " " + o.Goal + " " + strings.Join(o.Hints, " ") + " " + strings.Join(o.Extra, " ")
+	for _, sy := range symRe.FindAllString(seed, -1) {
+		live[sy] = true
+	}
+	inc := make([]bool, o.NFacts)
+	for changed := true; changed; {
+		changed = false
+		for i := 0; i < o.NFacts; i++ {
+			if inc[i] {
+				continue
+			}
+			fi := infos[i]
+			take := false
+			if fi.def != "" && !isCtl(fi.def) {
+				take = live[fi.def]
+			} else if len(fi.syms) == 0 {
+				take = true
+			} else {
+				probe := fi.body
+				if fi.def != "" { // definition of a control predicate: only when that predicate is live
+					probe = []string{fi.def}
+				} else if len(probe) == 0 {
+					probe = fi.syms
+				}
+				for _, sy := range probe {
+					if live[sy] {
+						take = true
+						break
+					}
+				}
+			}
+			if take {
+				inc[i] = true
+				changed = true
+				for _, sy := range fi.syms {
+					live[sy] = true
+				}
+			}
+		}
+	}
+	var out []string
+	for i := 0; i < o.NFacts; i++ {
+		if inc[i] {
+			out = append(out, ft.facts[i])
+		}
+	}
+	return out
 }
